@@ -493,24 +493,28 @@ end examples
 
 `Hs.Spell.Spells v bs` / `Hs.Spell.SpellsTop v bs` (Hs/Spec/ZincSpell.lean, written from the grammar and from the reference
 writer harness/src/spell.rs) say that the text `bs` is a sentence of the Zinc grammar denoting `v` (nested resp. as a
-whole document).  The freedoms of the relation are exactly those the property lists: blanks (space, tab) after
-`[` `{` `,` `:` and before `,` `]` `}`, inside `C( , )` and `Type( )`; line endings LF or CRLF, chosen line by line;
-every Str / Uri character raw when legal, by its short escape, or as `\uXXXX` with upper- or lower-case hex digits;
+whole document).  The freedoms of the relation are those the property lists: blanks (space, tab) after
+`[` `{` `,` `:` and before `,` `]` `}`, inside `C( , )` and `Type( )`, before every line ending, before a document;
+line endings LF, CRLF or a lone CR, chosen line by line; every Str / Uri character raw when legal, by its short
+escape, or as `\uXXXX` with upper- or lower-case hex digits; the Uri escapes of the library's full table (`` \` ``
+`\\` `\[ \] \@ \& \= \;` denote the character, `\: \/ \? \#` are kept verbatim: they denote backslash + character);
 numbers with sign, fraction, exponent (`e`/`E`, optional sign) and `_` after any digit of any digit run; trailing
-list comma; dict tags separated by a space (and blanks) or by a comma (with blanks around); Marker tags with or
-without `:M`; grid meta on the `ver` line, column meta, empty cells, nested grids in `<<` … `>>`, an optional blank
-line at the end of a document; time fractions with 1–9 digits.
+list comma; dict tags separated by blanks (space or tab, at least one) or by a comma (with blanks around); Marker
+tags with or without `:M`; grid meta on the `ver` line, column meta, empty cells, nested grids in `<<` … `>>`;
+after a grid document any number of further (blank) lines, after any other document blanks and line endings;
+time fractions with 1–9 digits.
 
 Numbers, coordinates and timestamps are lexical, as in C01: the value carries the numeral / token text (`Flt.txt`:
 the sentence's numeral without `_`, exponent letter `e`; `DateTime.txt`: the token, so `…Z` and `…Z UTC` are two
 lexical values), and the theorem says the reader returns exactly that numeral / token.  `wfS` is C01's `wfV`
 without the conditions on the numeral (which the spelling relation itself fixes).
 
-Not in the relation (decided by exchange with the reference writer only, or not at all): a lone CR as line ending
-(spell.rs uses it for whole documents); the Uri escapes `\:` `\/` `\?` `\#` … (implementations disagree on what they
-denote; spell.rs does not use them either); blanks before a line ending or around a whole document; a tab as the
-first byte of a tag separator.  Residual hypotheses as in C01: nesting ≤ 63, `ver` 3.0, meta not `Some(empty)`,
-single-column grids without missing cell, XStr type other than `C`. -/
+Not in the relation: one single blank as the only text after a document that is not a grid (the library reads it;
+the scanner's end-of-input flag is raised one byte early there, which the framing lemmas do not follow), blank lines
+between rows or before `>>` (the library skips them; the grammar has none).  A lone CR that ends a grid document's
+last line, directly followed by an LF, is the CRLF line ending and not two line endings (`SpellsTop.gridNl`).
+Residual hypotheses as in C01: nesting ≤ 63, `ver` 3.0, meta not `Some(empty)`, single-column grids without missing
+cell, XStr type other than `C`. -/
 
 open Hs.Spell in
 /-- The property's read direction, full strength: every sentence is decoded to (the lexical image of) the value it
@@ -644,45 +648,50 @@ theorem exList_sp : Spells exListV exListB :=
       (SpItems.cons _ _ _ _ [] [9] _ (Spells.str sTxt _ sTxt_sp) (blanksOf _ (by decide)) (blanksOf _ (by decide))
         (SpItems.lastComma _ _ [] [32] (Spells.num nNeg _ nNeg_sp) (blanksOf _ (by decide)) (blanksOf _ (by decide)))))
 
-example : wfS exListV = true ∧ depthOk exListV = true := by decide +kernel
-/-- the reader decodes that sentence: numerals `1000.5e+3` (unit kW) and `-25e-07`, the string `aéé😀$\n` -/
-example : fromBytes exListB = .ok (Hs.C01.lexImage exListV) :=
-  C04_read_holds exListV exListB (by decide +kernel) (by decide +kernel)
-    (SpellsTop.other _ _ (by intro _ _ _ _ e; cases e) exList_sp)
+theorem trailer_nil : Trailer [] := ⟨(by intro b hb; cases hb), (by intro b e; cases e)⟩
+theorem spells_cast {v : Val} {a b : List UInt8} (h : Spells v a) (e : a = b) : Spells v b := e ▸ h
+theorem spellsTop_cast {v : Val} {a b : List UInt8} (h : SpellsTop v a) (e : a = b) : SpellsTop v b := e ▸ h
 
-/-- `{ a:M b , c: [ ],d }`: explicit `:M`, space and comma separators with blanks, blanks after `:` and inside `[ ]` -/
+example : wfS exListV = true ∧ depthOk exListV = true := by decide +kernel
+/-- the reader decodes that sentence — here with a blank before and a line ending after the document: numerals
+`1000.5e+3` (unit kW) and `-25e-07`, the string `aéé😀$\n` -/
+example : fromBytes ([32] ++ exListB ++ [10]) = .ok (Hs.C01.lexImage exListV) :=
+  C04_read_holds exListV _ (by decide +kernel) (by decide +kernel)
+    (SpellsTop.other _ [32] _ [10] (by intro _ _ _ _ e; cases e) (blanksOf _ (by decide)) exList_sp
+      ⟨by intro b hb; simp at hb; simp [hb], by intro b e; simp at e; simp [← e]⟩)
+
+/-- `{ a:M<TAB>b , c: [ ],d }`: explicit `:M`, a tab as tag separator, a comma with blanks, blanks after `:` and inside `[ ]` -/
 def exDictV : Val := .dict (.cons ['a'] .marker (.cons ['b'] .marker (.cons ['c'] (.list .nil) (.cons ['d'] .marker .nil))))
-def exDictB : List UInt8 := B "{ a:M b , c: [ ],d }"
+def exDictB : List UInt8 := B "{ a:M\tb , c: [ ],d }"
 theorem exDict_sp : Spells exDictV exDictB :=
-  (by decide +kernel : 123 :: ([32] ++ ((encChars ['a'] ++ 58 :: ([] ++ [77])) ++ 32 :: ([] ++ (encChars ['b'] ++ [32] ++ 44 ::
-      ([32] ++ ((encChars ['c'] ++ 58 :: ([32] ++ (91 :: ([32] ++ [] ++ [93])))) ++ [] ++ 44 :: ([] ++ encChars ['d'])))))) ++
-      [32] ++ [125]) = exDictB) ▸
-  Spells.dict _ [32] _ [32] (blanksOf _ (by decide))
-    (SpTags.space true _ _ _ _ _ _ [] _ (SpTag.val ['a'] .marker [] [77] (blanksOf _ (by decide)) Spells.marker)
-      (blanksOf _ (by decide))
+  spells_cast
+  (Spells.dict _ [32] _ [32] (blanksOf _ (by decide))
+    (SpTags.space true _ _ _ _ _ _ [9] _ (SpTag.val ['a'] .marker [] [77] (blanksOf _ (by decide)) Spells.marker)
+      (blanksOf _ (by decide)) (by decide)
       (SpTags.comma _ _ _ _ _ _ [32] [32] _ (SpTag.marker ['b']) (blanksOf _ (by decide)) (blanksOf _ (by decide))
         (SpTags.comma _ _ _ _ _ _ [] [] _
           (SpTag.val ['c'] (.list .nil) [32] _ (blanksOf _ (by decide))
             (Spells.list .nil [32] [] (blanksOf _ (by decide)) SpItems.nil))
           (blanksOf _ (by decide)) (blanksOf _ (by decide))
           (SpTags.one true _ _ _ (SpTag.marker ['d'])))))
-    (blanksOf _ (by decide))
+    (blanksOf _ (by decide)))
+  (by decide +kernel)
 
 example : fromBytes exDictB = .ok (Hs.C01.lexImage exDictV) :=
   C04_read_holds exDictV exDictB (by decide +kernel) (by decide +kernel)
-    (SpellsTop.other _ _ (by intro _ _ _ _ e; cases e) exDict_sp)
+    (spellsTop_cast (SpellsTop.other _ [] _ [] (by intro _ _ _ _ e; cases e) (blanksOf _ (by decide)) exDict_sp
+      trailer_nil) (by decide +kernel))
 
-/-- a grid document with CRLF and LF line endings mixed, meta on the `ver` line, column meta, blanks after the
-commas, an empty cell, and a nested grid in `<<` … `>>`:
+/-- a grid document with blanks before it, LF, CRLF and lone-CR line endings mixed, blanks (and a tab) before line
+endings, a tab before the meta, column meta, blanks after the commas, an empty cell, a nested grid in `<<` … `>>`
+written with lone CRs, and two further blank lines after the document:
 ```
-ver:"3.0" dis:"G" m\r\n
+  ver:"3.0"<TAB>dis:"G" m \r\n
 a,  b foo\r\n
 1,\n
-, <<\r\n
-ver:"3.0"\n
-x\n
-N\n
->>\r\n
+, <<<TAB>\r ver:"3.0"\r x \r N\r >> \r\n
+\n
+ \n
 ```  -/
 def exInnerG : Val := .grid .none (.cons ['x'] .none .nil) (.cons (.cons ['x'] .null .nil) .nil) "3.0".toList
 def exOuterG : Val :=
@@ -690,16 +699,18 @@ def exOuterG : Val :=
     (.cons ['a'] .none (.cons ['b'] (.some (.cons "foo".toList .marker .nil)) .nil))
     (.cons (.cons ['a'] (.num ⟨⟨0, ['1']⟩, none⟩) .nil) (.cons (.cons ['b'] exInnerG .nil) .nil))
     "3.0".toList
-def exInnerB : List UInt8 := B "<<\r\nver:\"3.0\"\nx\nN\n>>"
-def exOuterB : List UInt8 := B "ver:\"3.0\" dis:\"G\" m\r\na,  b foo\r\n1,\n, " ++ exInnerB ++ B "\r\n"
+def exInnerB : List UInt8 := B "<<\t\rver:\"3.0\"\rx \rN\r>>"
+def exOuterB : List UInt8 :=
+  B "  ver:\"3.0\"\tdis:\"G\" m \r\na,  b foo\r\n1,\n, " ++ exInnerB ++ B " \r\n\n \n"
 
 theorem exInner_sp : Spells exInnerG exInnerB :=
-  (by decide +kernel : 60 :: 60 :: ([13, 10] ++ ([118, 101, 114, 58, 34, 51, 46, 48, 34] ++ [] ++ [10] ++ (encChars ['x'] ++ []) ++ [10]
-      ++ (cellText [(['x'], [78])] ['x'] ++ [10] ++ [])) ++ [62, 62]) = exInnerB) ▸
-  Spells.grid _ _ _ _ [13, 10] _ Nl.crlf
-    (SpGrid.mk _ _ _ _ [] [10] _ [10] _ SpMeta.none Nl.lf (SpCols.one ['x'] .none [] SpMeta.none) Nl.lf
-      (SpRows.cons _ _ _ [(['x'], [78])] _ [10] [] (SpCells.cons ['x'] .null .nil [78] [] Spells.null SpCells.nil)
-        (RowLine.one _ ['x']) Nl.lf (SpRows.nil _)))
+  spells_cast
+  (Spells.grid _ _ _ _ [9] [13] _ (blanksOf _ (by decide)) Nl.cr
+    (SpGrid.mk _ _ _ _ [] [] [13] _ [32] [13] _ SpMeta.none (blanksOf _ (by decide)) Nl.cr
+      (SpCols.one ['x'] .none [] SpMeta.none) (blanksOf _ (by decide)) Nl.cr
+      (SpRows.cons _ _ _ [(['x'], [78])] _ [] [13] [] (SpCells.cons ['x'] .null .nil [78] [] Spells.null SpCells.nil)
+        (RowLine.one _ ['x']) (blanksOf _ (by decide)) Nl.cr (SpRows.nil _))))
+  (by decide +kernel)
 
 theorem one_sp : Spells (.num ⟨⟨0, ['1']⟩, none⟩) [49] :=
   Spells.num _ _ ((by decide : ((if false then [45] else []) ++ [49]) ++ unitText (none : Option (List Char)) = [49]) ▸
@@ -707,30 +718,52 @@ theorem one_sp : Spells (.num ⟨⟨0, ['1']⟩, none⟩) [49] :=
       (Decimal.int false [49] [49] (digitsOf _ _ (by decide) (by decide) (by decide))) (by decide))
 
 theorem exOuter_sp : SpellsTop exOuterG exOuterB :=
-  (by decide +kernel : [118, 101, 114, 58, 34, 51, 46, 48, 34] ++ (32 :: ((encChars "dis".toList ++ 58 :: ([] ++ [34, 71, 34])) ++
-      32 :: ([] ++ encChars ['m']))) ++ [13, 10] ++ (encChars ['a'] ++ [] ++ 44 :: ([32, 32] ++ (encChars ['b'] ++ (32 :: encChars "foo".toList)))) ++ [13, 10]
-      ++ ((cellText [(['a'], [49])] ['a'] ++ 44 :: ([] ++ cellText [(['a'], [49])] ['b'])) ++ [10] ++
-          ((cellText [(['b'], exInnerB)] ['a'] ++ 44 :: ([32] ++ cellText [(['b'], exInnerB)] ['b'])) ++ [13, 10] ++ [])) = exOuterB) ▸
-  SpellsTop.grid _ _ _ _ _
-    (SpGrid.mk _ _ _ _ _ [13, 10] _ [13, 10] _
-      (SpMeta.some _ _ (SpTags.space false _ _ _ _ _ _ [] _
+  spellsTop_cast
+  (SpellsTop.gridNl _ _ _ _ [32, 32] _ [] [10] [32, 10] (blanksOf _ (by decide))
+    (SpGrid.mk _ _ _ _ _ [32] [13, 10] _ [] [13, 10] _
+      (SpMeta.some _ [9] _ (blanksOf _ (by decide)) (by decide) (SpTags.space false _ _ _ _ _ _ [32] _
         (SpTag.val "dis".toList (.str ['G']) [] [34, 71, 34] (blanksOf _ (by decide))
           (Spells.str ['G'] _ ((by decide +kernel : 34 :: ((encChar 'G' ++ []) ++ [34]) = [34, 71, 34]) ▸
             Quoted.mk ['G'] _ (StrBody.cons 'G' _ _ _ (StrCh.raw 'G' (by decide) (by decide) (by decide) (by decide)) StrBody.nil))))
-        (blanksOf _ (by decide)) (SpTags.one false _ _ _ (SpTag.marker ['m']))))
-      Nl.crlf
+        (blanksOf _ (by decide)) (by decide) (SpTags.one false _ _ _ (SpTag.marker ['m']))))
+      (blanksOf _ (by decide)) Nl.crlf
       (SpCols.cons ['a'] .none ['b'] _ .nil [] [32, 32] _ SpMeta.none (blanksOf _ (by decide))
-        (SpCols.one ['b'] _ _ (SpMeta.some _ _ (SpTags.one false _ _ _ (SpTag.marker "foo".toList)))))
-      Nl.crlf
-      (SpRows.cons _ _ _ [(['a'], [49])] _ [10] _ (SpCells.cons ['a'] _ .nil [49] [] one_sp SpCells.nil)
-        (RowLine.cons _ ['a'] ['b'] [] [] _ (blanksOf _ (by decide)) (RowLine.one _ ['b'])) Nl.lf
-        (SpRows.cons _ _ _ [(['b'], exInnerB)] _ [13, 10] [] (SpCells.cons ['b'] _ .nil exInnerB [] exInner_sp SpCells.nil)
-          (RowLine.cons _ ['a'] ['b'] [] [32] _ (blanksOf _ (by decide)) (RowLine.one _ ['b'])) Nl.crlf
+        (SpCols.one ['b'] _ _ (SpMeta.some _ [32] _ (blanksOf _ (by decide)) (by decide)
+          (SpTags.one false _ _ _ (SpTag.marker "foo".toList)))))
+      (blanksOf _ (by decide)) Nl.crlf
+      (SpRows.cons _ _ _ [(['a'], [49])] _ [] [10] _ (SpCells.cons ['a'] _ .nil [49] [] one_sp SpCells.nil)
+        (RowLine.cons _ ['a'] ['b'] [] [] _ (blanksOf _ (by decide)) (RowLine.one _ ['b'])) (blanksOf _ (by decide)) Nl.lf
+        (SpRows.cons _ _ _ [(['b'], exInnerB)] _ [32] [13, 10] [] (SpCells.cons ['b'] _ .nil exInnerB [] exInner_sp SpCells.nil)
+          (RowLine.cons _ ['a'] ['b'] [] [32] _ (blanksOf _ (by decide)) (RowLine.one _ ['b'])) (blanksOf _ (by decide)) Nl.crlf
           (SpRows.nil _))))
+    (blanksOf _ (by decide)) Nl.lf (by intro b hb; simp at hb; rcases hb with rfl | rfl <;> simp)
+    (by intro _ _; decide +kernel))
+  (by decide +kernel)
 
 example : wfS exOuterG = true ∧ depthOk exOuterG = true := by decide +kernel
 example : fromBytes exOuterB = .ok (Hs.C01.lexImage exOuterG) :=
   C04_read_holds exOuterG exOuterB (by decide +kernel) (by decide +kernel) exOuter_sp
+
+/-- a document written with lone CRs throughout, and one more CR after it: `ver:"3.0"\rx\rN\r\r` -/
+def exCrB : List UInt8 := B "ver:\"3.0\"\rx\rN\r\r"
+theorem exCr_sp : SpellsTop exInnerG exCrB :=
+  spellsTop_cast
+  (SpellsTop.gridNl _ _ _ _ [] _ [] [13] [] (blanksOf _ (by decide))
+    (SpGrid.mk _ _ _ _ [] [] [13] _ [] [13] _ SpMeta.none (blanksOf _ (by decide)) Nl.cr
+      (SpCols.one ['x'] .none [] SpMeta.none) (blanksOf _ (by decide)) Nl.cr
+      (SpRows.cons _ _ _ [(['x'], [78])] _ [] [13] [] (SpCells.cons ['x'] .null .nil [78] [] Spells.null SpCells.nil)
+        (RowLine.one _ ['x']) (blanksOf _ (by decide)) Nl.cr (SpRows.nil _)))
+    (blanksOf _ (by decide)) Nl.cr (by intro b hb; cases hb) (by intro _ e; cases e))
+  (by decide +kernel)
+example : fromBytes exCrB = .ok (Hs.C01.lexImage exInnerG) :=
+  C04_read_holds exInnerG exCrB (by decide +kernel) (by decide +kernel) exCr_sp
+
+/-- a Uri with the library's escapes: `` `a\:b\[cé` `` denotes `a\:b[cé` (the backslash of `\:` is kept) -/
+def exUriB : List UInt8 := 96 :: ([97, 92, 58, 98, 92, 91, 99, 92, 117, 48, 48, 101, 57] ++ [96])
+example : fromBytes exUriB = .ok (.uri "a\\:b[cé".toList) :=
+  C04_read_holds (.uri "a\\:b[cé".toList) exUriB (by decide +kernel) (by decide +kernel)
+    (spellsTop_cast (SpellsTop.other _ [] _ [] (by intro _ _ _ _ e; cases e) (blanksOf _ (by decide))
+      (Spells.uri _ _ uriBody_example) trailer_nil) (by decide +kernel))
 
 /-- a Time with its fraction written with one digit (`12:00:00.5`) and padded (`12:00:00.5000`) -/
 def exTime : Time := ⟨12, 0, 0, 500000000, "12:00:00.500".toList⟩
